@@ -77,6 +77,8 @@ def diff_kind(exp, got, u):
                 return "engine panics (%s)" % core.panic_sig(tuple(u["panics"][0]))
             return "engine raises %s where the reference succeeds" % k
         return "engine succeeds where the reference raises"
+    if u.get("panics"):
+        return "engine panics (%s)" % core.panic_sig(tuple(u["panics"][0]))
     if exp[0] == "err" and not got[1] and not got[2] and (exp[1] or exp[2]):
         return "engine fails before the effects that precede the error (%s)" % (u.get("kind") or "?")
     if exp[1] != got[1]:
